@@ -15,6 +15,7 @@ import (
 	"time"
 
 	"github.com/bartossh/Computantis/src/accountant"
+	"github.com/bartossh/Computantis/src/spice"
 	"github.com/bartossh/Computantis/src/transaction"
 	"verif.local/simrt"
 )
@@ -806,6 +807,8 @@ func (w *World) execStep(i int, s *Step) {
 				}
 			}
 		}
+	case "genesis":
+		w.doGenesis(s, n)
 	case "sleep":
 		simrt.SleepFor(time.Duration(s.K) * time.Millisecond)
 	case "clockjump":
@@ -1010,4 +1013,43 @@ func (w *World) onlyKnownVerticesAdded(a, b *Snap) bool {
 		added++
 	}
 	return added > 0
+}
+
+// doGenesis offers the ledger a genesis it has to refuse: a second one on a ledger that already has its
+// genesis (created here or loaded from a peer), or - on a fresh node - one whose transaction has neither
+// data nor spice (what an absent genesis amount in the configuration asks for).
+func (w *World) doGenesis(s *Step, n *Node) {
+	to := s.To
+	if to < 0 || to >= len(w.WAddr) {
+		to = 0
+	}
+	switch s.Kind {
+	case "again":
+		if n == nil || !n.Alive || !n.Book.DagLoaded() {
+			return
+		}
+		before := w.snapshot(n)
+		_, err := n.Book.CreateGenesis("Genesis Vertex", spice.New(w.Supply.Currency, w.Supply.SupplementaryCurrency), []byte{}, w.WAddr[to])
+		w.probe("c10-second-genesis-offered")
+		after := w.snapshot(n)
+		if err == nil {
+			w.violate("C10", "genesis", "second-genesis-on-a-ledger-that-has-one", n.Idx, "CreateGenesis on a ledger of %d vertices returned no error", len(before.Live)+len(before.Stored))
+			return
+		}
+		if before != nil && after != nil && len(after.Roots) > len(before.Roots) {
+			w.violate("C10", "genesis", "refused-second-genesis-left-a-root", n.Idx, "roots %d -> %d", len(before.Roots), len(after.Roots))
+		}
+	case "empty":
+		j := w.addNode()
+		if err := w.startNode(j.Idx); err != nil {
+			w.note("genesis/empty: start n%d: %v", j.Idx, err)
+			return
+		}
+		v, err := j.Book.CreateGenesis("Genesis Vertex", spice.New(0, 0), []byte{}, w.WAddr[to])
+		w.probe("c10-empty-genesis-offered")
+		if err == nil && v.Transaction.IsEmpty() {
+			w.violate("C10", "genesis", "empty-transaction-sealed-as-genesis", j.Idx, "CreateGenesis with no spice and no data sealed vertex %x", v.Hash[:4])
+		}
+		w.stopNode(j.Idx)
+	}
 }
